@@ -6,7 +6,12 @@ props = [json.loads(l) for l in open(os.path.join(ROOT, "properties.jsonl"))]
 ids = [p["id"] for p in props]
 claimed = {}
 for f in sorted(glob.glob(os.path.join(ROOT, "props", "C*.json"))):
-    c = json.load(open(f))
+    try:
+        c = json.load(open(f))
+    except Exception as e:
+        print("skipping unreadable", f, e); continue
+    if not all(k in c for k in ("id", "module", "theorems", "level_text", "level_note")):
+        print("skipping incomplete", f); continue
     claimed[c["id"]] = c
 na = json.load(open(os.path.join(ROOT, "na.json")))
 checks = []
